@@ -15,10 +15,12 @@ class CtorInit(Rule):
     """Constructor fragment `Name(params) : a(e1), b{e2}, Base(args) { BODY }`  ->  `{ self->a = (e1); self->b = (e2);
     <base template>; { BODY } }`.  The header up to the ':' of the mem-initialiser list is dropped (the C signature is
     hand written).  An initialiser whose name is neither a listed member nor a listed base class is an extraction failure;
-    `m()` (value initialisation) becomes `VX_VALUE_INIT(self->m);`.  Order of initialisers is kept as written."""
+    `m()` (value initialisation) becomes `VX_VALUE_INIT(self->m);`.  Order of initialisers is kept as written; class-type
+    members that the list does not mention get their default construction (`defaults`) appended."""
 
-    def __init__(self, members, bases=None, obj="self"):
+    def __init__(self, members, bases=None, obj="self", defaults=None):
         self.members, self.bases, self.obj, self.n = list(members), dict(bases or {}), obj, 1
+        self.defaults = dict(defaults or {})  # class-type members: default construction when not mentioned in the list
 
     def apply(self, text):
         i = text.find("(")
@@ -61,7 +63,9 @@ class CtorInit(Rule):
                 raise LiftError("CtorInit: text after the constructor body")
             body = text[bo:bc + 1]
             break
-        self.seen = seen
+        for mname, text_ in self.defaults.items():
+            if mname not in seen:
+                out.append(text_)
         return "{ " + " ".join(out) + " " + body + " }"
 
 
@@ -189,6 +193,58 @@ UNITS = [
           min_obligations=15),
     sunit("ctx.available_stack_space", "U_CTX_AVAILABLE", "ctx_get_available_stack_space", [CXF + "get_available_stack_space"],
           "F: never reports more room than lies between the stack base and the current stack pointer"),
+]
+
+# ---------------------------------------------------------------------------------------------------------------
+# unit group 3a: thread_data::rebind_base == thread_data::thread_data on the per-task fields
+
+TD = "libs/pika/threading_base/src/thread_data.cpp"
+TDH = "libs/pika/threading_base/include/pika/threading_base/thread_data.hpp"
+TID = "libs/pika/coroutines/include/pika/coroutines/thread_id_type.hpp"
+
+TD_MEMBERS = ["current_state_", "priority_", "requested_interrupt_", "enabled_interrupt_", "ran_exit_funcs_", "is_stackless_",
+              "exit_funcs_", "scheduler_base_", "last_worker_thread_num_", "stacksize_", "stacksize_enum_", "queue_"]
+ENUMS = [
+    Sub(r"(?:\w+::)*thread_(restart_state|schedule_state|stacksize|id_addref)::(\w+)", r"thread_\1_\2", None),
+]
+TD_COMMON = ENUMS + [
+    Call(r"(?<![\w:])thread_state", "thread_state_make({args})", None),   # combined_tagged_state(state, state_ex) constructor
+    Sub(r"\bstd::size_t\(", "(size_t)(", None),                            # functional cast
+    Sub(r"\binit_data\.", "init_data->", None),                            # reference parameter
+    Sub(r"\bexit_funcs_\.(empty|clear)\(\)", r"flist_\1(&self->exit_funcs_)", None),
+]
+# std::lock_guard<spinlock> l(spinlock_pool::spinlock_for(this));
+TD_LOCK = Guard(r"std::(?:unique_lock|lock_guard|scoped_lock)\s*(?:<[^;()]*>)?\s*(\w+)\s*\(\s*spinlock_pool::spinlock_for\(this\)\s*\)\s*;",
+                r"vx_lock();", r"vx_unlock();", None)
+
+
+def recycle_lifts():
+    return {
+        "refcount_ctor": Lift(TID, r"explicit thread_data_reference_counting\(thread_id_addref addref = thread_id_addref::yes\)",
+                              fragment_end=r"\{\s*\}", rules=ENUMS + [CtorInit(["count_"])]),
+        "get_stack_size": Lift(TDH, r"std::ptrdiff_t get_stack_size\(\) const noexcept", rules=[Members(["stacksize_"])]),
+        "free_thread_exit_callbacks": Lift(TD, r"void thread_data::free_thread_exit_callbacks\(", rules=[TD_LOCK] + TD_COMMON + [
+            Members(TD_MEMBERS, optional=TD_MEMBERS)]),
+        "ctor": Lift(TD, r"thread_data::thread_data\(thread_init_data& init_data, void\* queue, std::ptrdiff_t stacksize,\s*bool is_stackless, thread_id_addref addref\)",
+                     fragment_end=r"\}(?=\s*thread_data::~thread_data\(\))", rules=TD_COMMON + [
+            CtorInit(TD_MEMBERS, bases={"thread_data_reference_counting": "refcount_ctor(self, {args});"},
+                     defaults={"exit_funcs_": "flist_default_ctor(&self->exit_funcs_);"}),
+            Members(TD_MEMBERS, optional=TD_MEMBERS)]),
+        "rebind_base": Lift(TD, r"void thread_data::rebind_base\(thread_init_data& init_data\)", rules=TD_COMMON + [
+            Call(r"\b(current_state_|last_worker_thread_num_)\.store", "self->{h1} = ({0})", None),   # std::atomic<T>::store
+            Sub(r"(?<![\w.>:])(free_thread_exit_callbacks|get_stack_size)\(\)", r"\1(self)", None),
+            Members(TD_MEMBERS, optional=TD_MEMBERS)]),
+    }
+
+
+TDF = TD + ": threads::detail::thread_data::"
+UNITS += [
+    Unit("recycle.rebind_base", "recycle.c", enforce="rebind_base", lifts=recycle_lifts(),
+         funcs=[TDF + "rebind_base, thread_data (constructor: mem-initialiser list and body), free_thread_exit_callbacks",
+                TDH + ": thread_data::get_stack_size", TID + ": thread_data_reference_counting (constructor)"],
+         doc="I: after rebind_base the per-task fields are field-wise what the constructor produces for the same init data; "
+             "stack size, queue, stackless-ness and reference count are outside the frame",
+         min_obligations=30),
 ]
 
 META = {
